@@ -271,3 +271,147 @@ class IntentHeaderV2(Job):
 
 
 JOBS["C34"] = [HeaderV1(), HeaderV2Tx(), IntentHeaderV2()]
+
+
+# ---------------------------------------------------------------------------------------------------------------
+# message validation (V2): lengths and decryptor counts are symbolic "sized" values
+import re as _re2          # noqa: E402
+from mirsmt import models as _models2   # noqa: E402
+
+MSG_MAX = 3000
+
+
+def _sized(ty, n):
+    """a container of which only the length matters"""
+    return StructV(ty, [IntV(n, "usize")])
+
+
+class MessageV2Job(Job):
+    crate = "radix-transactions"
+    query_timeout_s = 60
+    case_keys = ("entries",)
+
+    def __init__(self):
+        self.name = "c34m::validate_message_v2"
+        self.what = ("TransactionValidator::validate_message_v2 for every message shape (none; plaintext with any mime-type and "
+                     "content length, text or bytes; encrypted with any payload length and 0..2 decryptor groups with any key / "
+                     "value curve and any number of decryptors) and every limit configuration (all <= 3000): accepted exactly "
+                     "when every length is within its limit, an encrypted message has at least one group, every group's curve "
+                     "matches its key, no group is empty and the TOTAL number of decryptors over all groups is within the limit")
+        self.cover_labels = ["plaintext accepted", "plaintext too long", "encrypted accepted", "too many decryptors in total",
+                             "curve mismatch"]
+
+    def cases(self, tier):
+        return [{"entries": n} for n in (0, 1, 2)]
+
+    def locate(self, prog):
+        return find_function(prog, "validation/transaction_validator_v2.rs", "validate_message_v2", nparams=2)
+
+    def _names(self):
+        ns = ["maxp", "maxe", "maxm", "maxd", "kind", "mime", "ckind", "mlen", "elen"]
+        for e in range(self.case["entries"]):
+            ns += ["kc%d" % e, "vc%d" % e, "cnt%d" % e]
+        return ns
+
+    def inputs(self):
+        d = {k: z3.Int(k) for k in self._names()}
+        pre = []
+        for k, v in d.items():
+            if k == "kind":
+                pre += [v >= 0, v <= 2]
+            elif k == "ckind" or k.startswith(("kc", "vc")):
+                pre += [v >= 0, v <= 1]
+            else:
+                pre += [v >= 0, v <= MSG_MAX]
+        if self.case["entries"] == 2:
+            pre.append(d["kc0"] != d["kc1"])        # map keys are distinct
+        return d, pre
+
+    @property
+    def env_overrides(self):
+        def m_len(interp, path, args, ret_ty, callee):
+            v = _models2.deref(interp, path, args[0])
+            if v.kind == "struct" and v.ty.startswith("Sized"):
+                return IntV(v.fields[0].term, "usize")
+            raise _models2.Refuse("len of %r" % (v,))
+        return [(_re2.compile(r"^<impl String>::len$|^Vec::<u8>::len$|^IndexMap::<PublicKeyFingerprint, AesWrapped256BitKey>::len$"), m_len)]
+
+    def args(self, inp):
+        d = {k: lit(v) for k, v in inp.items()}
+        u = UndefV()
+        msgcfg = StructV("MessageValidationConfig", [IntV(d["maxp"], "usize"), IntV(d["maxe"], "usize"), IntV(d["maxm"], "usize"),
+                                                      IntV(d["maxd"], "usize")])
+        cfg = StructV("TransactionValidationConfigV1", [
+            IntV(16, "usize"), IntV(512, "usize"), IntV(0, "u16"), IntV(65535, "u16"), IntV(100, "u64"),
+            IntV(1000, "usize"), msgcfg, BoolV(True), u, u, BoolV(True), IntV(0, "u32"), IntV(1000000, "u32"),
+            IntV(3, "usize"), IntV(64, "usize"), IntV(512, "usize")])
+        validator = StructV("TransactionValidator", [cfg, EnumV("Option<u8>", 0, {0: [], 1: [IntV(0, "u8")]})])
+        contents = EnumV("MessageContentsV1", d["ckind"], {0: [_sized("SizedString", d["mlen"])], 1: [_sized("SizedVec", d["mlen"])]})
+        plain = StructV("PlaintextMessageV1", [_sized("SizedString", d["mime"]), contents])
+        entries = []
+        for e in range(self.case["entries"]):
+            dec = _sized("SizedMap", d["cnt%d" % e])
+            group = EnumV("DecryptorsByCurveV2", d["vc%d" % e], {0: [u, dec], 1: [u, dec]})
+            entries.append(StructV("Slot", [EnumV("CurveType", d["kc%d" % e], {0: [], 1: []}), group, BoolV(True)]))
+        enc = StructV("EncryptedMessageV2", [StructV("AesGcmPayload", [_sized("SizedVec", d["elen"])]),
+                                             StructV("SymMap<CurveType, DecryptorsByCurveV2>", entries)])
+        message = EnumV("MessageV2", d["kind"], {0: [], 1: [plain], 2: [enc]})
+        self._path.frames["job"]["msg"] = message          # map operations need a place: the message lives in the job frame
+        return [const_ref("&TransactionValidator", validator), RefV("&MessageV2", "job", "msg", ())]
+
+    def setup_path(self, path, inp):
+        path.frames["job"] = {}
+        self._path = path
+
+    def extract(self, v):
+        return {"ok": v.discr == 0}
+
+    def native(self, nat, vals):
+        n = self.case["entries"]
+        toks = [vals["maxp"], vals["maxe"], vals["maxm"], vals["maxd"], vals["kind"], vals["mime"], vals["ckind"], vals["mlen"],
+                vals["elen"], n]
+        for e in range(n):
+            toks += [vals["kc%d" % e], vals["vc%d" % e], vals["cnt%d" % e]]
+        return parse_ok(nat.call("msg_v2", *toks))
+
+    def post(self, inp, res):
+        d = {k: lit(v) for k, v in inp.items()}
+        n = self.case["entries"]
+        plain_ok = z3.And(d["mime"] <= d["maxm"], d["mlen"] <= d["maxp"])
+        groups_ok = z3.And([z3.And(d["kc%d" % e] == d["vc%d" % e], d["cnt%d" % e] >= 1) for e in range(n)]) if n else z3.BoolVal(True)
+        total = z3.Sum([d["cnt%d" % e] for e in range(n)]) if n else z3.IntVal(0)
+        enc_ok = z3.And(d["elen"] <= d["maxe"], z3.BoolVal(n >= 1), groups_ok, total <= d["maxd"])
+        spec = z3.If(d["kind"] == 0, True, z3.If(d["kind"] == 1, plain_ok, enc_ok))
+        return [("accepted exactly when every length and the total decryptor count are within the limits", lit(res["ok"]) == spec)]
+
+    def covers(self, inp, res):
+        d = {k: lit(v) for k, v in inp.items()}
+        ok = lit(res["ok"])
+        n = self.case["entries"]
+        F = z3.BoolVal(False)
+        total = z3.Sum([d["cnt%d" % e] for e in range(n)]) if n else z3.IntVal(0)
+        each_ok = z3.And([z3.And(d["kc%d" % e] == d["vc%d" % e], d["cnt%d" % e] >= 1, d["cnt%d" % e] <= d["maxd"]) for e in range(n)]) \
+            if n else F
+        return [("plaintext accepted", z3.And(ok, d["kind"] == 1)), ("plaintext too long", z3.And(z3.Not(ok), d["kind"] == 1)),
+                ("encrypted accepted", z3.And(ok, d["kind"] == 2)),
+                ("too many decryptors in total", z3.And(z3.Not(ok), d["kind"] == 2, d["elen"] <= d["maxe"], each_ok, total > d["maxd"])
+                 if n == 2 else F),
+                ("curve mismatch", z3.And(z3.Not(ok), d["kind"] == 2, d["elen"] <= d["maxe"], d["kc0"] != d["vc0"]) if n >= 1 else F)]
+
+    def vectors(self, rng):
+        out = []
+        for _ in range(40):
+            n = rng.randrange(3)
+            d = {"entries": n, "maxp": rng.choice([0, 100, 2000]), "maxe": rng.choice([0, 100, 2000]), "maxm": rng.choice([0, 10, 128]),
+                 "maxd": rng.choice([0, 1, 20]), "kind": rng.randrange(3), "mime": rng.choice([0, 10, 11, 128, 129]),
+                 "ckind": rng.randrange(2), "mlen": rng.choice([0, 100, 101, 2000, 2001]), "elen": rng.choice([0, 100, 101, 2000])}
+            kcs = rng.sample([0, 1], n)
+            for e in range(n):
+                d["kc%d" % e] = kcs[e]
+                d["vc%d" % e] = kcs[e] if rng.random() < 0.8 else 1 - kcs[e]
+                d["cnt%d" % e] = rng.choice([0, 1, 10, 19, 20, 21])
+            out.append(d)
+        return out
+
+
+JOBS["C34"].append(MessageV2Job())
